@@ -197,6 +197,11 @@ fn query_ops(rng: &mut Rng, kind: &str, b: u32, p: u32, probs: &[u128], labels: 
             ops.push(format!("decsweep 0 {:x}", total));
         } else {
             ops.push(format!("decs {}", show_list(interesting_quantiles(rng, b, p, probs, false))));
+            if p > 10 {
+                // both ends of the quantile range, completely
+                ops.push("decsweep 0 100".to_string());
+                ops.push(format!("decsweep {:x} {:x}", total - 0x100, total));
+            }
         }
     }
     ops
@@ -221,6 +226,11 @@ fn ctor_seg(kind: &str, b: u32, p: u32, labels: &[usize], probs: &[u128], infer:
 
 /// a full line for a *valid* table: ctor, queries, then a chain of conversions with queries
 fn valid_line(rng: &mut Rng, kind: &str, b: u32, p: u32, probs: &[u128], infer: bool, exhaustive: bool, chain: usize) -> String {
+    valid_line_with(rng, kind, b, p, probs, infer, exhaustive, chain, None)
+}
+
+/// like `valid_line`, but the first conversion is `first_op` (conversion matrix)
+fn valid_line_with(rng: &mut Rng, kind: &str, b: u32, p: u32, probs: &[u128], infer: bool, exhaustive: bool, chain: usize, first_op: Option<&'static str>) -> String {
     let n = probs.len();
     let labels: Vec<usize> = if ["contig", "lookup"].contains(&kind) { (0..n).collect() } else { random_labels(rng, n) };
     let identity = labels.iter().enumerate().all(|(i, &l)| i == l);
@@ -231,12 +241,15 @@ fn valid_line(rng: &mut Rng, kind: &str, b: u32, p: u32, probs: &[u128], infer: 
         line.push_str(" | ");
         line.push_str(&op);
     }
-    for _ in 0..chain {
+    for step in 0..chain {
         let cs = conv_ops_for(&cur, b);
         if cs.is_empty() {
             break;
         }
-        let op = *rng.pick(&cs);
+        let op = match (step, first_op) {
+            (0, Some(f)) => f,
+            _ => *rng.pick(&cs),
+        };
         line.push_str(" | ");
         line.push_str(op);
         if b >= 32 && ["tolookup", "togenlookup"].contains(&op) {
@@ -605,6 +618,51 @@ pub fn gen(rng: &mut Rng, tier: &str, out: &mut Vec<String>) {
                         "syms".to_string()
                     };
                     out.push(format!("cat.fast {} {:x} {:x} {:x} {} | {}", kind, b, p, n, show_list(labels.iter().map(|&l| l as u128)), ops));
+                }
+            }
+        }
+    }
+
+    // (H) conversion matrix: every (source representation) x (conversion) at every compiled
+    //     (B, P) -- in particular P == B, where the last cdf entry is the wrapped total 0 --
+    //     followed by the full query battery (all quantiles if P <= 12, both ends otherwise)
+    let reps = if thorough { 6 } else { 2 };
+    for &(b, ps) in BPS {
+        for &p in ps {
+            for kind in ["contig", "ncdec", "lookup", "nclookup"] {
+                if b >= 32 && kind.contains("lookup") {
+                    continue;
+                }
+                for op in conv_ops_for(kind, b) {
+                    for r in 0..reps {
+                        let maxn = pow2(p).min(if r == 0 { 5 } else { 40 });
+                        let n = if maxn <= 2 { 2 } else { 2 + rng.below(maxn - 1) as usize };
+                        let probs = random_table(rng, p, n);
+                        out.push(valid_line_with(rng, kind, b, p, &probs, r % 2 == 1, p <= 12, 2, Some(op)));
+                    }
+                }
+            }
+            // uniform source
+            for op in conv_ops_for("uniform", b) {
+                for r in 0..reps {
+                    let t = pow2(p);
+                    let range = match r {
+                        0 => 2,
+                        1 => t.min(37),
+                        _ => 2 + rng.below(t.min(300) - 1),
+                    };
+                    let mut line = format!("cat.uniform {:x} {:x} {:x} | table | {}", b, p, range, op);
+                    if b >= 32 && op == "togenlookup" {
+                        out.push(line);
+                        continue;
+                    }
+                    let cur = kind_after("uniform", op);
+                    let probs: Vec<u128> = (0..range).map(|i| if i + 1 == range { t - (range - 1) * (t / range) } else { t / range }).collect();
+                    for q in query_ops(rng, cur, b, p, &probs, None, p <= 12) {
+                        line.push_str(" | ");
+                        line.push_str(&q);
+                    }
+                    out.push(line);
                 }
             }
         }
